@@ -494,6 +494,11 @@ public:
 	void GetSegmentation(NifSegmentationInfo& inf, std::vector<int>& triParts) const;
 	void SetSegmentation(const NifSegmentationInfo& inf, const std::vector<int>& triParts);
 
+#ifdef NIFLY_VERIF
+	// Verification hook (guard NIFLY_VERIF): read-only view of the raw FO4 segment ranges.
+	const BSSITSSegmentation& VerifSegmentation() const { return segmentation; }
+#endif
+
 	void SetDefaultSegments();
 	void Create(NiVersion& version,
 				const std::vector<Vector3>* verts,
